@@ -134,7 +134,7 @@ def family(tier):
     add("custom_x_taphold", "ab", "(deflayer l0 (multi mlft (tap-hold 0 3 x mrgt)) y)", qmax=2)
     add("custom_x_chordv1", "ab", "(defchords g 3 (a) mrgt (b) x (a b) mlft)\n(deflayer l0 (chord g a) (chord g b))",
         qmax=3, quick=False)
-    add("macro_ring", "a", "(deflayer l0 (macro S-(x 12 y)))", qmax=2, quick=False)
+    add("macro_ring", "a", "(deflayer l0 (macro S-(x 9 y)))", qmax=1, quick=False)
     add("holdfor_x_oneshot", "ab", "(defvirtualkeys v (one-shot 2 lsft))\n(deflayer l0 (hold-for-duration 3 v) x)",
         qmax=3, osbound=3, quick=False)
     return F
